@@ -444,4 +444,7 @@ pub fn run(rc: &mut RunCtx) {
     }
     rc.require_label("mutated", "tolerant_parse_goes_further", 50_000);
     rc.require_label("mutated", "starts_at_root", 300_000);
+    if !rc.quick() {
+        rc.run_fuzz(Some(STAGES[2]), 300);
+    }
 }
